@@ -21,6 +21,10 @@ from collections import Counter
 
 REPO = os.environ.get("VERIF_REPO", "/repo")
 VERIF = os.path.dirname(os.path.dirname(os.path.abspath(__file__)))
+# Where evidence and replay files are written.  Always /verif for the
+# registered checks; tools/eval_mutant.py redirects it so that runs against a
+# seeded mutant never overwrite the evidence of the real tree.
+OUT = os.environ.get("VERIF_OUT", VERIF)
 DEFAULT_SEED = 20260921
 PY = "/venv/bin/python"
 
@@ -414,7 +418,7 @@ def repo_head():
 
 
 def write_replay(spec, verif_seed, idx, case, outcome_json, minimised_from=None):
-    d = os.path.join(VERIF, "replays")
+    d = os.path.join(OUT, "replays")
     os.makedirs(d, exist_ok=True)
     sig_h = hashlib.sha256((outcome_json["sig"] or "").encode()).hexdigest()[:10]
     path = os.path.join(d, "%s-%s-%d.json" % (spec.prop, sig_h, verif_seed))
@@ -646,8 +650,8 @@ def run_check(spec, tier, verif_seed, n_runs=None, workers=None, first_run=0):
         "wall_s": round(wall, 2),
         "violations": len(new_sigs),
     }
-    os.makedirs(os.path.join(VERIF, "evidence"), exist_ok=True)
-    with open(os.path.join(VERIF, "evidence", spec.prop + ".json"), "w") as f:
+    os.makedirs(os.path.join(OUT, "evidence"), exist_ok=True)
+    with open(os.path.join(OUT, "evidence", spec.prop + ".json"), "w") as f:
         json.dump(evidence, f, indent=1, sort_keys=True, default=_jdefault)
     print(
         "%s %s: runs=%d judged=%d discarded=%d violations=%d distinct=%d states=%d wall=%.1fs (%d runs/h)"
